@@ -69,12 +69,19 @@ class Part(object):
         shrink=True,
         describe="",
         engine=None,
+        decode=None,
+        instrument=None,
     ):
         self.name = name
         self.execute = execute
         self.strategy = strategy
         self.enumerate = enumerate
-        self.kind = "hypothesis" if strategy is not None else "enumerate"
+        # kind == "fuzz": coverage-guided fuzzing (atheris / libFuzzer); ``decode(fdp)`` turns the
+        # fuzzer's bytes (an atheris.FuzzedDataProvider) into a case, ``instrument`` names the
+        # modules whose coverage guides the search; ``examples`` = number of executions per tier
+        self.decode = decode
+        self.instrument = instrument or []
+        self.kind = "fuzz" if decode is not None else ("hypothesis" if strategy is not None else "enumerate")
         # per tier: total number of examples over all shards
         self.examples = examples or {"quick": 200, "thorough": 2000}
         self.shards = shards or {"quick": 8, "thorough": 16}
